@@ -333,6 +333,7 @@ class Machine(object):
 
     def call_callee(self, callee, args, where=""):
         from . import builtins
+        builtins._CUR_MACHINE[0] = self
         d = callee.get("def")
         r = callee.get("resolved")
         for p in (r, d):
